@@ -132,7 +132,7 @@ def check(run):
     extra = [list(p) for p in export.extra_assignable_table()]
     run.cov["extra_assignable_pairs"] = len(extra)
     streams = [("corpus", corpus_pairs())]
-    streams.append(("tables", gen_pairs(rng, 120 if quick else 4000, 60 if quick else 90)))
+    streams.append(("tables", gen_pairs(rng, 80 if quick else 4000, 60 if quick else 90)))
     run.cov["rule"] = ("pairs (s, t) over random completed class tables (1-6 classes, <=3 type parameters, variance, "
                        "bounds incl. parameter-to-parameter and nested), strata: random / up-closure / variant / "
                        "variant-reversed / refl-two-step / malformed; each pair asked ==, is_subtype, is_assignable; "
